@@ -650,6 +650,10 @@ def check_C19(A, R, tier):
                      detail="beyond %d elements (%s) the code takes another branch: behaviour that only projects of that size exercise"
                             % (cval, ", ".join(sorted(short(c) for c in sized))), site=A.site(st))
     R.info["size_thresholds"] = n_thr
+    # R19.7 (= R2.8): handing 'needed' up a chain of Ephemerals happens in one walk that reaches every unfinished Ephemeral - done
+    # level by level over several signal rounds instead, the top of a chain of three or more is decided before the mark arrives
+    from rules_c04 import rule_walk_reaches_every_ephemeral
+    rule_walk_reaches_every_ephemeral(A, R, "R19.7")
     # R19.4: a worklist walk over the graph (take an element out of a local collection, put its neighbours in) remembers what it
     # has visited; without that its work is bounded by the number of *paths*, which is exponential in the depth of layered graphs
     n_walk = 0
@@ -2316,6 +2320,9 @@ def check_C02(A, R, tier):
     # upstream whatever the dependency is flagged as already - otherwise the top of the chain is skipped while its consumer runs
     from rules_c04 import rule_walk_reaches_every_ephemeral
     rule_walk_reaches_every_ephemeral(A, R, "R2.8")
+    # R2.9 (= R4.8): a validated Ephemeral that learns it is needed while its own upstreams are pending tells them on every path
+    from rules_c04 import rule_needed_marks_inputs
+    rule_needed_marks_inputs(A, R, "R2.9")
     # R2.3: get_job_output reports the field the success event stored
     gjo = A.evaluator_fn("get_job_output")
     r = A.joined_run(gjo)
